@@ -49,3 +49,56 @@ func ZZ_C12_N1_FindClosest() {
 	zzv.Assert(zzv.Implies(t <= arr[0], r == arr[0]), "N1.clamp_low")
 	zzv.Assert(zzv.Implies(t >= arr[n-1], r == arr[n-1]), "N1.clamp_high")
 }
+
+//zzv:bound N1 = real FindClosest: all strictly increasing key lists of length 1..12 (thorough 1..32), keys 0..255 and targets -1000..1000 (thorough additionally keys/targets anywhere in +-2^31, length <= 12): the result is an element, no element is strictly nearer, exact hits are returned, requests beyond either end use that end
+//zzv:bound N2 = real ExtractKeysWithDistinctValues + SortedKeys on maps with 1..5 (thorough 1..8) entries, keys any distinct 0..255 inserted in any order, outputs any 0..255 (constant, single-entry and non-monotonic maps included): the result is exactly the first key of each run of equal outputs in key order, ascending
+//zzv:outside empty maps (outside the property); key lists longer than the bound; outputs equal to -1 (the implementation's sentinel, not a PWM value)
+//zzv:stub sort.Slice inside util.sortSlice is a sorting network over the concrete-length slice
+
+func ZZ_C12_N2_DistinctKeys() {
+	maxN := 5
+	if zzv.Thorough() {
+		maxN = 8
+	}
+	n := zzv.Choice("entries", maxN) + 1
+	keys := make([]int, n)
+	outs := make([]int, n)
+	m := map[int]int{}
+	for i := 0; i < n; i++ {
+		keys[i] = zzv.Int("key")
+		outs[i] = zzv.Int("out")
+		zzv.Assume(zzv.And(keys[i] >= 0, keys[i] <= 255))
+		zzv.Assume(zzv.And(outs[i] >= 0, outs[i] <= 255))
+		for j := 0; j < i; j++ {
+			zzv.Assume(keys[j] != keys[i])
+		}
+		m[keys[i]] = outs[i] // insertion order is arbitrary with respect to key order
+	}
+	res := ExtractKeysWithDistinctValues(m)
+	zzv.Record("distinct", len(res))
+	// oracle: key k is listed iff no smaller key exists whose successor-in-key-order is k with the same output
+	for i := 0; i < n; i++ {
+		// predecessor of keys[i] in key order
+		hasPred := false
+		predKey := -1
+		predOut := -1
+		for j := 0; j < n; j++ {
+			better := zzv.And(keys[j] < keys[i], keys[j] > predKey)
+			predOut = zzv.IteInt(better, outs[j], predOut)
+			predKey = zzv.IteInt(better, keys[j], predKey)
+			hasPred = zzv.Or(hasPred, keys[j] < keys[i])
+		}
+		want := zzv.Or(zzv.Not(hasPred), predOut != outs[i])
+		listed := false
+		for _, r := range res {
+			listed = zzv.Or(listed, r == keys[i])
+		}
+		zzv.Assert(listed == want, "N2.first_key_of_each_run")
+	}
+	asc := true
+	for i := 1; i < len(res); i++ {
+		asc = zzv.And(asc, res[i-1] < res[i])
+	}
+	zzv.Assert(asc, "N2.ascending")
+	zzv.Assert(len(res) >= 1, "N2.never_empty_for_nonempty_map")
+}
